@@ -146,7 +146,7 @@ def import_repo():
 
 def real_function(key: str):
     import_repo()
-    mod, qn = key.split(":")
+    mod, qn = key.split("#")[0].split(":")
     m = importlib.import_module(mod)
     obj = m
     for part in qn.split("."):
@@ -214,6 +214,13 @@ def run_contract(c: Contract, kwargs: dict) -> Outcome:
     for exn, cond in c.raises.items():
         raise_conds[exn] = bool(evaluate(cond, env))
     call_kwargs = {k: v for k, v in kwargs.items() if not k.startswith("self.")}
+    qn = c.key.split("#")[0].split(":")[1]
+    if qn.endswith(".__init__"):
+        fn = real_function(c.key.split("#")[0][: -len(".__init__")])          # constructing = calling the class
+    elif getattr(c, "objects", None) and isinstance(call_kwargs.get("self"), tuple):
+        cls = c.objects.get(len(call_kwargs["self"]))
+        if cls:
+            call_kwargs["self"] = real_function(cls)(call_kwargs["self"])     # tuple-modelled object -> the real object
     try:
         result = fn(**call_kwargs)
     except Exception as e:
